@@ -333,16 +333,158 @@ fn run_routing(rng: &mut Rng) -> Result<Option<(String, String)>, String> {
     })
 }
 
+/// routing by channel: 2..4 sessions; the peer answers every begin on a channel of its own choosing
+/// (a permutation of the client's, sparse, large), one receiver per session, one delivery per session
+/// in random order; every receiver must get exactly its own, and every frame the client sends for a
+/// session goes out on the channel the client announced for it
+fn run_channel_routing(rng: &mut Rng) -> Result<Option<(String, String)>, String> {
+    let n = rng.range(2, 4) as usize;
+    let peer_channels: Vec<u16> = match rng.below(3) {
+        0 => {
+            // a permutation of what the client uses
+            let mut v: Vec<u16> = (0..n as u16).collect();
+            v.reverse();
+            if n > 2 && rng.chance(1, 2) {
+                v.swap(0, 1);
+            }
+            v
+        }
+        _ => {
+            let mut v: Vec<u16> = vec![];
+            while v.len() < n {
+                let c = *rng.pick(&[0u16, 1, 2, 3, 7, 255, 256, 1000, 65534, 65535]);
+                if !v.contains(&c) {
+                    v.push(c);
+                }
+            }
+            v
+        }
+    };
+    let order: Vec<usize> = {
+        let mut o: Vec<usize> = (0..n).collect();
+        for i in (1..n).rev() {
+            o.swap(i, rng.below(i as u64 + 1) as usize);
+        }
+        o
+    };
+    let rt = paused_runtime();
+    let pc = peer_channels.clone();
+    rt.block_on(async move {
+        let (cio, pio) = tokio::io::duplex(1 << 20);
+        let mut peer = Peer::new(pio);
+        let nn = n;
+        let client = tokio::spawn(async move {
+            let mut conn = Connection::builder().container_id("c11c").channel_max(65535).open_with_stream(cio).await.map_err(|e| format!("open: {:?}", e))?;
+            let mut ss = vec![];
+            let mut rs = vec![];
+            for i in 0..nn {
+                let mut session = Session::begin(&mut conn).await.map_err(|e| format!("begin {}: {:?}", i, e))?;
+                let r = Receiver::builder().name(format!("r{}", i)).source("q").credit_mode(CreditMode::Manual).auto_accept(false).attach(&mut session).await.map_err(|e| format!("attach on session {}: {:?}", i, e))?;
+                ss.push(session);
+                rs.push(r);
+            }
+            Ok::<_, String>((conn, ss, rs))
+        });
+        peer.accept_open(&PeerOpen { channel_max: 65535, ..PeerOpen::default() }).await.map_err(|e| format!("{:?}", e))?;
+        let mut client_channels = vec![];
+        for i in 0..n {
+            let (ch, _) = peer.accept_begin(pc[i], 0, 2048, 2048).await.map_err(|e| format!("{:?}", e))?;
+            client_channels.push(ch);
+            // the attach of session i has to arrive on the channel the client announced for session i
+            let (ach, p, _) = peer.recv_frame().await.map_err(|e| format!("{:?}", e))?;
+            let a = match p {
+                Performative::Attach(a) => a,
+                other => return Ok(Some(("unexpected-frame".into(), format!("expected the attach of session {}, got {}", i, summarize(&other, 0))))),
+            };
+            if ach != ch {
+                return Ok(Some(("frame-on-wrong-channel".into(), format!("the attach of session {} (begun on channel {}) was sent on channel {}", i, ch, ach))));
+            }
+            let ours = Attach {
+                name: a.name.clone(),
+                handle: Handle(5),
+                role: Role::Sender,
+                snd_settle_mode: a.snd_settle_mode.clone(),
+                rcv_settle_mode: ReceiverSettleMode::First,
+                source: a.source.clone(),
+                target: a.target.clone(),
+                unsettled: None,
+                incomplete_unsettled: false,
+                initial_delivery_count: Some(0),
+                max_message_size: None,
+                offered_capabilities: None,
+                desired_capabilities: None,
+                properties: None,
+            };
+            peer.send(pc[i], Performative::Attach(ours), &[]).await.map_err(|e| format!("{:?}", e))?;
+        }
+        let (_c, _ss, mut rs) = match tokio::time::timeout(Duration::from_secs(5), client).await {
+            Err(_) => return Ok(Some(("not-routed".into(), format!("begin / attach answers on the peer's channels {:?} did not reach their sessions: the client is still waiting", pc)))),
+            Ok(r) => match r.map_err(|e| format!("{:?}", e))? {
+                Ok(x) => x,
+                Err(e) => return Ok(Some(("not-routed".into(), format!("peer channels {:?} (client channels {:?}): {}", pc, client_channels, e)))),
+            },
+        };
+        for r in rs.iter_mut() {
+            r.set_credit(10).await.map_err(|e| format!("{:?}", e))?;
+        }
+        for &i in order.iter() {
+            let msg = message_bytes(2000 + i as u64, 8 + i);
+            let t = transfer(5, Some(0), Some(vec![i as u8]), Some(true), false);
+            peer.send(pc[i], Performative::Transfer(t), &msg).await.map_err(|e| format!("{:?}", e))?;
+        }
+        for (i, r) in rs.iter_mut().enumerate() {
+            match tokio::time::timeout(Duration::from_millis(100), r.recv::<Value>()).await {
+                Ok(Ok(d)) => {
+                    let ok = matches!(d.body(), Value::Binary(b) if b.len() == 8 + i) && d.delivery_tag().as_ref() == [i as u8];
+                    if !ok {
+                        return Ok(Some(("misrouted".into(), format!("the receiver of session {} (peer channel {}) got a delivery that is not its own: tag {:?}", i, pc[i], d.delivery_tag()))));
+                    }
+                }
+                other => {
+                    let what = match other {
+                        Ok(Ok(_)) => "a delivery that is not its own".to_string(),
+                        Ok(Err(e)) => format!("{:?}", e),
+                        Err(_) => "nothing arrived".to_string(),
+                    };
+                    return Ok(Some(("not-delivered".into(), format!("the receiver of session {} (peer channel {}): {}", i, pc[i], what))));
+                }
+            }
+            if let Ok(Ok(_)) = tokio::time::timeout(Duration::from_millis(20), r.recv::<Value>()).await {
+                return Ok(Some(("extra-delivery".into(), format!("the receiver of session {} got a second delivery", i))));
+            }
+        }
+        Ok(None)
+    })
+}
+
 pub fn main(opts: &Opts) {
     let mut report = Report::new(
         "C11",
         "(a) sender scenarios (message sizes around the frame / max-message-size boundaries, both splitting layers, windows 1..2048, \
          credit 1..100, initial ids incl. 2^32-1) observed by a scripted receiver; (b) random attach/detach histories of senders and \
          receivers with repeated names, handles read off the wire and compared with the slab model; (c) routing by sparse / large peer \
-         handles; non-trivial = a multi-frame delivery, a handle reuse, or 2+ links routed; distinct by hash of the scenario",
+         handles and, across 2..4 sessions, by peer-chosen (permuted, sparse, large) channel numbers; non-trivial = a multi-frame delivery, a handle reuse, or 2+ links routed; distinct by hash of the scenario",
     );
     if let Some(path) = &opts.replay {
         let j: J = serde_json::from_str(&std::fs::read_to_string(path).expect("read")).expect("json");
+        for (key, which) in [("routing_rng", 0), ("channel_routing_rng", 1)] {
+            if let Some(tag) = j.get(key).and_then(|x| x.as_u64()) {
+                let mut r = Rng(tag);
+                let out = if which == 0 { run_routing(&mut r) } else { run_channel_routing(&mut r) };
+                println!("{:?}", out);
+                match out {
+                    Ok(None) => {
+                        println!("REPLAY: property holds on this scenario");
+                        std::process::exit(0);
+                    }
+                    Ok(Some((k, d))) => {
+                        println!("REPLAY: property violated [{}]: {}", k, d);
+                        std::process::exit(1);
+                    }
+                    Err(_) => std::process::exit(1),
+                }
+            }
+        }
         if let Some(cfg) = j.get("config").and_then(e2e::Config::from_json) {
             let obs = e2e::run(&cfg);
             for t in &obs.transfers {
@@ -433,6 +575,18 @@ pub fn main(opts: &Opts) {
             Ok(None) => report.nontrivial_case(tag),
             Ok(Some((key, desc))) => report.finding(Finding { kind: "violation", key, description: desc, replay: json!({"property": "C11", "module": "ids", "routing_rng": tag}) }),
             Err(e) => report.finding(Finding { kind: "violation", key: "routing-scenario-failed".into(), description: e, replay: json!({"property": "C11", "module": "ids", "routing_rng": tag}) }),
+        }
+    }
+    // routing by channel
+    for _ in 0..n_r {
+        report.evaluations += 1;
+        report.count("channel_routing_cases");
+        let mut r2 = rng.fork();
+        let tag = r2.0;
+        match run_channel_routing(&mut r2) {
+            Ok(None) => report.nontrivial_case(tag ^ 0x11),
+            Ok(Some((key, desc))) => report.finding(Finding { kind: "violation", key: format!("channel-routing:{}", key), description: desc, replay: json!({"property": "C11", "module": "ids", "channel_routing_rng": tag}) }),
+            Err(e) => report.finding(Finding { kind: "violation", key: "channel-routing-scenario-failed".into(), description: e, replay: json!({"property": "C11", "module": "ids", "channel_routing_rng": tag}) }),
         }
     }
     if driver_available() {
